@@ -330,7 +330,6 @@ func (c *Ctx) ruleImportResolution() {
 	}
 }
 
-
 // ruleMatcherShape: the structural matcher as it is (string model): all fields compared, all methods examined.
 // Its fundamental defect (identity by rendering, receiver-kind filter, pointer depth) is reported by ruleTypeIdent.
 func (c *Ctx) ruleMatcherShape() {
@@ -429,7 +428,9 @@ func (c *Ctx) ruleMatcherShape() {
 				return hasLit(g, func(l Lit) bool { return l.Kind == "cond" && l.Val == ci.Params[2] && l.Pos == pos })
 			}
 			recvP := func(pos bool) bool {
-				return hasLit(g, func(l Lit) bool { return l.Kind == "cond" && l.Val != nil && l.Pos == pos && strings.HasSuffix(P.Desc(l.Val), "TypeMethod.ReceiverIsPointer)") })
+				return hasLit(g, func(l Lit) bool {
+					return l.Kind == "cond" && l.Val != nil && l.Pos == pos && strings.HasSuffix(P.Desc(l.Val), "TypeMethod.ReceiverIsPointer)")
+				})
 			}
 			_ = mu
 			if reqP(true) && len(g) == 1 {
@@ -610,19 +611,67 @@ func (c *Ctx) ruleQueries() {
 		}
 		imp := ps.Call.Call.Args[3]
 		fileFn := ps.Call.Parent()
-		okScope := P.RootsAll(imp, func(r ssa.Value) bool {
-			a, ok := r.(*ssa.Alloc)
-			return ok && typeStr(deref(a.Type())) == "util.ImportMap" && a.Parent() == fileFn
-		})
-		// filled from range file.Imports of the same file
-		okFill := false
-		allInstrs(fileFn, func(b *ssa.BasicBlock, ins ssa.Instruction) {
-			if call, ok := ins.(*ssa.Call); ok && call.Call.StaticCallee() != nil && FuncName(call.Call.StaticCallee()) == "(*util.ImportMap).Add" {
-				d := P.Desc(call.Call.Args[1])
-				if P.Desc(call.Call.Args[0]) == P.Desc(imp) && strings.HasPrefix(d, "elem(field(iterelem0(call((*config.Config).FilterFiles;") && strings.HasSuffix(d, ".go/ast.File.Imports))") {
-					okFill = len(nonLoopGuards(P.BlockGuards(b))) == 0
+		okScope, okFill := false, false
+		P.Pinned(ps.ViaFn, ps.Via, func() {
+			// the map is one freshly allocated util.ImportMap ...
+			var allocs []*ssa.Alloc
+			okScope = P.RootsAll(imp, func(r ssa.Value) bool {
+				a, ok := r.(*ssa.Alloc)
+				if ok && typeStr(deref(a.Type())) == "util.ImportMap" {
+					allocs = append(allocs, a)
+					return true
 				}
+				return false
+			}) && len(allocs) == 1
+			if !okScope {
+				return
 			}
+			a := allocs[0]
+			textDesc := P.Desc(ps.Text)
+			// ... filled, in the function that allocates it, from range <file>.Imports, unconditionally; <file> is the
+			// file the parsed comment belongs to, and the allocation is repeated for every file (file is a parameter of
+			// the allocating function, or allocation and file binding share the innermost loop)
+			allInstrs(a.Parent(), func(b *ssa.BasicBlock, ins ssa.Instruction) {
+				call, ok := ins.(*ssa.Call)
+				if !ok || call.Call.StaticCallee() == nil || FuncName(call.Call.StaticCallee()) != "(*util.ImportMap).Add" {
+					return
+				}
+				if !P.RootsAll(call.Call.Args[0], func(r ssa.Value) bool { return r == a }) {
+					return
+				}
+				var files []ssa.Value
+				for _, e := range P.Resolve(call.Call.Args[1]) {
+					u, ok := e.(*ssa.UnOp)
+					if !ok {
+						continue
+					}
+					ia, ok := u.X.(*ssa.IndexAddr)
+					if !ok || !isRangeIndex(ia.Index) {
+						continue
+					}
+					for _, l := range P.Resolve(ia.X) {
+						if f := fieldLoad(l, "go/ast.File", "Imports"); f != nil {
+							files = append(files, f)
+						}
+					}
+				}
+				if len(files) != 1 || len(nonLoopGuards(P.BlockGuards(b))) != 0 {
+					return
+				}
+				file := files[0]
+				sameFile := strings.Contains(textDesc, "field("+P.Desc(file)+".go/ast.File.")
+				fresh := false
+				switch fv := file.(type) {
+				case *ssa.Parameter:
+					fresh = fv.Parent() == a.Parent()
+				case ssa.Instruction:
+					la, lf := loopOf(a.Block()), loopOf(fv.Block())
+					fresh = fv.Parent() == a.Parent() && la != nil && lf != nil && len(la) == len(lf) && la[fv.Block()] && lf[a.Block()]
+				}
+				if sameFile && fresh {
+					okFill = true
+				}
+			})
 		})
 		c.check(okScope && okFill, "IMPORTS-PER-FILE", FuncName(fileFn), P.Pos(ps.Call.Pos()), "qualifiers are resolved against the imports of the annotation's own file",
 			"the import map used to resolve @implements qualifiers is not built per file from that file's imports: a qualifier bound only in another file resolves (or two files' aliases collide)")
